@@ -18,24 +18,50 @@ SLits == {LitS(3, 1, "k"), LitS(1, 2, "M"), Lit(2, 1)}
 BigLits == SLits \cup {LitS(5, 1, "G"), LitS(2, 1, "T"), LitS(7, 2, "P"), LitS(3, 1, "Z"), LitS(2, 1, "Y")}
 SufTrees == Step(SLits) \cup BigLits \cup {Bin(o, a, b) : o \in {"*", "/"}, a \in BigLits, b \in SLits}
                         \cup {Bin(o, a, a) : o \in Ops, a \in BigLits} \cup {Neg(a) : a \in BigLits}
-RECURSIVE Trees(_)
+RECURSIVE Trees(_), HasTiny(_)
 Trees(n) == IF n = 0 THEN Lits ELSE Step(Trees(n - 1))
 
+\* literals too small for TLC's 32-bit rationals: 10^-k, written out as 0,00..01.  Their trees are emitted with
+\* the tree itself as the expectation ("f64tree"): the driver evaluates the tree in double precision in exactly the
+\* order the tree prescribes (the statement speaks of the double-precision value), the specification supplies the
+\* structure (precedence, associativity, grouping).
+Tiny(k) == [t |-> "lit", m |-> <<1, 1>>, sfx |-> "", tiny |-> k]
+TinyLits == {Tiny(16), Tiny(17), Tiny(20), Lit(1, 1), Lit(3, 1)}
+TinyTrees == {Bin(o, a, b) : o \in Ops, a \in TinyLits, b \in TinyLits}
+        \cup {Bin(o, a, Bin(p, b, c)) : o \in {"/", "*"}, p \in {"+", "-", "*"}, a \in {Lit(3, 1)}, b \in TinyLits, c \in {Tiny(16), Tiny(17)}}
+        \cup {Bin(o, Bin("/", a, b), c) : o \in {"+", "/"}, a \in {Lit(3, 1), Tiny(20)}, b \in {Tiny(16), Tiny(17)}, c \in TinyLits}
+HasTiny(x) == CASE x.t = "lit" -> "tiny" \in DOMAIN x [] x.t \in {"par", "neg"} -> HasTiny(x.e) [] x.t = "bin" -> HasTiny(x.l) \/ HasTiny(x.r)
+
 VARIABLE e
-Init == e \in Trees(Depth) \cup SufTrees
+Init == e \in Trees(Depth) \cup SufTrees \cup {x \in TinyTrees : HasTiny(x)}
 Next == UNCHANGED e
 
 PlusBetweenLits(toks) == {i \in 2..(Len(toks) - 1) : toks[i].k = "op" /\ toks[i].c = "+" /\ toks[i-1].k = "num" /\ toks[i+1].k = "num"}
 DropAt(toks, i) == SubSeq(toks, 1, i - 1) \o SubSeq(toks, i + 1, Len(toks))
 MinOf(S) == CHOOSE x \in S : \A y \in S : x <= y
 
+TokOf(x) == IF "tiny" \in DOMAIN x THEN [k |-> "num", m |-> x.m, sfx |-> x.sfx, tiny |-> x.tiny] ELSE [k |-> "num", m |-> x.m, sfx |-> x.sfx]
+RECURSIVE UnparseT(_, _, _)
+UnparseT(x, p, right) ==   \* Unparse for trees with tiny literals (keeps the marker on the token)
+  CASE x.t = "lit" -> <<TokOf(x)>>
+    [] x.t = "par" -> <<TLp>> \o UnparseT(x.e, 0, FALSE) \o <<TRp>>
+    [] x.t = "neg" -> <<TOp("-")>> \o UnparseT(x.e, 3, FALSE)
+    [] x.t = "bin" ->
+         LET need  == Prec(x.op) < p \/ (right /\ Prec(x.op) = p)
+             inner == UnparseT(x.l, Prec(x.op), FALSE) \o <<TOp(x.op)>> \o UnparseT(x.r, Prec(x.op), TRUE)
+         IN  IF need THEN <<TLp>> \o inner \o <<TRp>> ELSE inner
+F64 == [k |-> "f64tree"]
 Emit ==
+  IF HasTiny(e)
+  THEN PrintT(<<"CASE", ToJson([tree |-> e, min |-> UnparseT(e, 0, FALSE), full |-> <<>>, adj |-> <<>>,
+                                  exp_min |-> F64, exp_full |-> Unspec, exp_adj |-> Unspec])>>)
+  ELSE
   LET toks == Unparse(e, 0, FALSE)
       full == UnparseFull(e)
       adj  == PlusBetweenLits(toks)
       v    == TreeValue(e)
       atoks == IF adj = {} THEN <<>> ELSE DropAt(toks, MinOf(adj))
-  IN  PrintT(<<"CASE", ToJson([value |-> v, min |-> toks, full |-> full, adj |-> atoks,
+  IN  PrintT(<<"CASE", ToJson([value |-> v, tree |-> e, min |-> toks, full |-> full, adj |-> atoks,
                                  exp_min  |-> ArithMeaning(toks),
                                  exp_full |-> ArithMeaning(full),
                                  exp_adj  |-> IF atoks = <<>> THEN Unspec ELSE ArithMeaning(atoks)])>>)
